@@ -83,7 +83,7 @@ class error_997_visitor(error_visitor.error_visitor):
         isa_seg.append(self._echo(seg.get_value('ISA06')))
         isa_seg.append(time.strftime('%y%m%d'))  # Date
         isa_seg.append(time.strftime('%H%M'))  # Time
-        isa_seg.append(seg.get_value('ISA11'))
+        isa_seg.append(self._echo(seg.get_value('ISA11')))
         isa_seg.append(icvn)
         isa_seg.append(self.isa_control_num)  # ISA Interchange Control Number
         isa_seg.append('0') # No need for TA1 response to 997
